@@ -266,9 +266,9 @@ def make_chunk_ciphertext(chunk_key, chunk_id, nonce, plaintext):
 class Published:
     """A payload as a publishing node would describe it: key, nonce, shards, manifest and the stored ciphertext."""
 
-    def __init__(self, payload, seed, threshold=1, nshards=1, peer_private=None, filename=None, expires_in=3600, now=None):
+    def __init__(self, payload, seed, threshold=1, nshards=1, peer_private=None, filename=None, expires_in=3600, now=None, chunk_id=None):
         self.payload = payload
-        self.chunk_id = sha256(payload)
+        self.chunk_id = chunk_id if chunk_id is not None else sha256(payload)   # (a node may store under any id; `eph store` uses the content hash)
         self.key = expand(seed, 32, b'key')
         self.nonce = expand(seed, 12, b'nonce')
         self.peer_private = peer_private if peer_private is not None else 2 + int.from_bytes(expand(seed, 4, b'priv'), 'big') % (DH_PRIME - 4)
